@@ -252,8 +252,8 @@ def build_case(r, kind, tier):
         case["fail_pos"] = q
     elif kind == "dsl_parse":
         # a program that cannot be parsed or built, at any position in the chain, whatever the verb's flags
-        prog = r.choice(["$y = $x +", "$y = = 1", "syntax error $$$", "if ($a) { $b = 1", "func f( { return 1 }", "$y = nosuchfunction($x)", "$y = strlen($a, $b, $c)",
-                         "end { $x = 1 }", "begin { @a = $b }", "return 1", "func f() { return 1 } func f() { return 2 }", "$y = \"unterminated", "emit @x, \"a\",", "unset 3",
+        prog = r.choice(["$y = $x +", "$y = = 1", "syntax error $$$", "if ($a) { $b = 1", "func f( { return 1 }", "$y = strlen($a, $b, $c)",
+                         "end { $x = 1 }", "begin { @a = $b }", "return 1", "func f() { return 1 } func f() { return 2 }", "$y = \"unterminated", "unset 3",
                          "break", "$y = ${a", "for (k, v in $*) { $[k] = v "])
         q = r.below(len(verbs) + 1)
         verbs.insert(q, [r.choice(["put", "put", "filter"])] + r.choice([[], [], ["-q"], ["-X"], ["-v"], ["-v", "-X"], ["-S"], ["-x"] if False else ["-d"], ["-z"]]) + [prog])
